@@ -475,7 +475,7 @@ fn main() {
     for &(dim, nmax) in bounds {
         for n in 1..=nmax {
             let sets = dsets(dim, n, true, false, false);
-            let thin = if sets.len() > 3000 { 4 } else { 1 };
+            let thin = if sets.len() > 60_000 { 4 } else { 1 };
             for t in &sets {
                 if thin > 1 && !rng.chance(1, thin) {
                     continue;
